@@ -1,6 +1,7 @@
 import Ovsdb.Codec
 import Ovsdb.Model.Diff
 import Ovsdb.CodecCache
+import Ovsdb.Model.Cond
 /-
   Line-protocol driver: one JSON request per line on stdin, one JSON answer per
   line on stdout.  {"fn": name, ...inputs} -> {"ok": result} | {"error": text}
@@ -35,6 +36,33 @@ def cacheHistory (j : Json) : P Json := do
       out := out.push (Json.mkObj [("err", .null), ("cache", cacheToJson c), ("probes", .arr answers)])
   return Json.mkObj [("steps", .arr out)]
 
+/-- build a cache by creating the rows in order, then answer condition lookups -/
+def rowsByConditionFn (j : Json) : P Json := do
+  let specs ← jList specOfJson (← jField j "specs")
+  let rows ← jList (pairOfJson jStr rowOfJson) (← jField j "rows")
+  let zero ← rowOfJson (← jField j "zero")
+  let mut c := Cache.empty specs
+  for (u, r) in rows do
+    match c.create u r false with
+    | .ok c' => c := c'
+    | .error e => throw s!"create failed: {cerrToString e}"
+  let queries ← jArr (← jField j "queries")
+  let mut out : Array Json := #[]
+  for q in queries do
+    let conds ← jList condOfJson q
+    match rowsByCondition c zero conds with
+    | .ok us => out := out.push (Json.mkObj [("uuids", listToJson Json.str us)])
+    | .error e => out := out.push (Json.mkObj [("err", .str e)])
+  return .arr out
+
+def evalCondFn (j : Json) : P Json := do
+  let f ← condFnOfString (← jStr (← jField j "f"))
+  let a ← valueOfJson (← jField j "a")
+  let b ← valueOfJson (← jField j "b")
+  match evalCond f a b with
+  | .ok v => return Json.mkObj [("v", .bool v)]
+  | .error e => return Json.mkObj [("err", .str e)]
+
 def dispatch (fn : String) (j : Json) : P Json := do
   match fn with
   | "difference" =>
@@ -51,6 +79,8 @@ def dispatch (fn : String) (j : Json) : P Json := do
     let b ← optValueOfJson (← jField j "b")
     return resPair (mergeDifference o a b)
   | "cacheHistory" => cacheHistory j
+  | "rowsByCondition" => rowsByConditionFn j
+  | "evalCond" => evalCondFn j
   | _ => throw s!"unknown fn {fn}"
 
 def handle (line : String) : String :=
